@@ -5,7 +5,8 @@
     directory (rotation, file ages), the maintenance tick, the shutdown coordinator (hooks, then
     components) and restart, WAL off and on, in small scope: Accounted, LossExplained,
     DupOnlyByReplay (every loss/duplicate of the model goes through a modelled mechanism).
-(G) Coarse-mode behaviours (exhaustive with the WAL off, seeded simulation with the WAL on) are
+(G) Coarse-mode behaviours (exhaustive with the WAL off and for a 2-write WAL-on core, seeded
+    simulation for the larger WAL-on scope) are
     forced on the REAL ArrowBuffer + wal.Writer + shutdown.Coordinator; the maintenance-tick body,
     safeAge and the shutdown registrations are copied verbatim from cmd/arc/main.go at check
     time (harness/cmd/ingestgen); WAL file ages are set with os.Chtimes.
@@ -29,9 +30,13 @@ def run(ctx):
     ctx.note("tlc_model_check", mcs)
     base = {"MaxBuf": 1, "QCap": 1, "NWorkers": 1, "RPB": 1, "NHours": 1, "C07": True}
     s_off, g_off = L.generate(ctx, "Gen_c07_waloff.cfg", dict(base, WalOn=False))
-    s_on, g_on = L.generate(ctx, "Gen_c07_walon.cfg", dict(base, WalOn=True), simulate=50 if q else 1500)
-    ctx.note("tlc_generation", [g_off, g_on])
-    allscripts = L.pick(s_off, 50 if q else 400, 30 if q else 400, ctx.seed) + L.pick(s_on, 110 if q else 3000, 40 if q else 1500, ctx.seed + 1)
+    # exhaustive small WAL-on generator (2 writes, 1 rotation, 1 outage, 1 tick): reaches every listed WAL mechanism deterministically
+    s_core, g_core = L.generate(ctx, "Gen_c07_core.cfg", dict(base, WalOn=True))
+    s_on, g_on = L.generate(ctx, "Gen_c07_walon.cfg", dict(base, WalOn=True), simulate=30 if q else 1500)
+    ctx.note("tlc_generation", [g_off, g_core, g_on])
+    allscripts = (L.pick(s_off, 50 if q else 400, 30 if q else 400, ctx.seed)
+                  + L.pick(s_core, 150 if q else 1028, 20 if q else 600, ctx.seed + 2)
+                  + L.pick(s_on, 60 if q else 3000, 30 if q else 1500, ctx.seed + 1))
     for i, s in enumerate(allscripts):
         s["index"] = i
         s["consts"] = dict(s["consts"], Variant=i % 3)   # schema/hour pool slice, see mkBatch/realSig in the driver
